@@ -91,6 +91,50 @@ def module_containers(mods):
     return out
 
 
+def class_containers(mods):
+    """class-level mutable containers (shared by every instance of the class in the process)"""
+    out = {}
+    for m in mods:
+        for cname, obj in list(vars(m).items()):
+            if inspect.isclass(obj) and obj.__module__ == m.__name__:
+                for k, v in vars(obj).items():
+                    if k.startswith('__'):
+                        continue
+                    if isinstance(v, (list, dict, set)):
+                        try:
+                            out['%s.%s.%s' % (m.__name__, cname, k)] = repr(v)
+                        except Exception:
+                            pass
+    return out
+
+
+def private_map_dir():
+    """a map directory whose maps.xml sends 004010X098A1/HC to the institutional map (all other files are the shipped ones)"""
+    src = os.path.join(common.REPO, 'pyx12', 'map')
+    dst = os.path.join(common.WORK, 'c18-maps-%d' % os.getpid())
+    import shutil
+    shutil.rmtree(dst, ignore_errors=True)
+    os.makedirs(dst)
+    for f in os.listdir(src):
+        if f == 'maps.xml':
+            t = open(os.path.join(src, f), encoding='utf-8').read()
+            t2 = t.replace('<map vriic="004010X098A1" fic="HC" abbr="837P">837.4010.X098.A1.xml</map>',
+                           '<map vriic="004010X098A1" fic="HC" abbr="837P">837.4010.X096.A1.xml</map>')
+            if t2 == t:
+                raise common.Infra('maps.xml: entry 004010X098A1/HC not found')
+            open(os.path.join(dst, f), 'w', encoding='utf-8').write(t2)
+        else:
+            os.symlink(os.path.join(src, f), os.path.join(dst, f))
+    return dst
+
+
+def config_file():
+    p = os.path.join(common.WORK, 'c18-conf-%d.xml' % os.getpid())
+    open(p, 'w').write('<?xml version="1.0"?>\n<pyx12conf>\n <param name="charset"><value>B</value><type>string</type></param>\n'
+                       ' <param name="exclude_external_codes"><value>states</value><type>string</type></param>\n</pyx12conf>\n')
+    return p
+
+
 def ast_mutations(mods):
     """in-place mutations of a default-bound parameter or of a field it is assigned to (same class)"""
     hits = []
@@ -217,7 +261,7 @@ def run(tier):
     import pyx12.params
     res = common.Result('C18', tier)
     res.cov['rule'] = ('histories of 3-8 generated documents (mixed maps and versions, valid and faulty, repeated documents, reused params '
-                       'object) processed in one process by validation with all sinks and by the context reader; every result compared with a '
+                       'object; every third history starts with a run configured from a file, every third with a run on a private map directory) processed in one process by validation with all sinks and by the context reader; every result compared with a '
                        'fresh interpreter; a case is a history; non-trivial = at least two different maps or a repeated document')
     built = common.proof_stage(res, 'C18')
     mods = package_modules()
@@ -231,6 +275,9 @@ def run(tier):
     if muts:
         res.broke('correspondence:Globals.ops', 'in-place mutation of a default-bound name or alias: %r' % muts[:5])
     before = module_containers(mods)
+    cbefore = class_containers(mods)
+    pdir = private_map_dir()
+    conf = config_file()
     thorough = tier == 'thorough'
     rnd = random.Random(common.seed() * 982451653 + 18)
     entries = gendoc.index_entries()
@@ -254,6 +301,22 @@ def run(tier):
                 text = re.sub(r'^(N4\*[^*~]*\*)[A-Z]{2}', r'\1ZZ', text, count=1, flags=re.M)
             lid = rnd.choice((None, 'ST_LOOP', '2000A', '2000', '2300', 'ISA_LOOP'))
             docs.append((m['map_file'], text, lid))
+        prelude = None
+        if h % 3 == 1:
+            # an earlier run in this process configured from a FILE (charset B, states excluded); later documents are validated
+            # with brand-new default params objects and must not see it
+            prelude = 'config-file'
+            m0, t0, l0 = docs[0]
+            observe(t0, pyx12.params.params(conf), l0)
+        elif h % 3 == 2:
+            # an earlier run used a private map directory whose maps.xml names another map for 004010X098A1/HC; a later
+            # professional claim validated with the shipped maps must not see it
+            prelude = 'private-map-dir'
+            e0 = [e for e in entries if e['vriic'] == '004010X098A1' and e['fic'] == 'HC'][0]
+            g0 = gendoc.Gen(e0['map_file'], e0['icvn'], e0['vriic'], e0['fic'], seed=rnd.randrange(1 << 30), p_opt=0.3, max_rep=2, tspc=e0.get('tspc'))
+            t0 = g0.doc()
+            observe(t0, pyx12.params.params(), None, map_path=pdir)
+            docs.insert(rnd.randrange(0, len(docs) + 1), (e0['map_file'], t0, rnd.choice((None, '2300', '2000A'))))
         params = pyx12.params.params()
         maps = set(d[0] for d in docs)
         res.count()
@@ -284,8 +347,22 @@ def run(tier):
                               {'history': [{'map': d[0], 'loop_id': d[2], 'document': d[1], 'settings': used_settings[j]} for j, d in enumerate(docs[:i + 1])],
                                'call': 'harness.c18.observe on each document in order with its settings, reusing one params object; compare the last with a fresh interpreter',
                                'observed': {k: repr(got.get(k))[:600] for k in diff}, 'required': {k: repr(want.get(k))[:600] for k in diff}})
+            if prelude is not None and (i % 2 == 0 or prelude == 'private-map-dir' and mf == '837.4010.X098.A1.xml'):
+                # the same document with a brand-new default params object and no explicit settings
+                got = observe(text, None, lid)
+                want = fresh(text, lid, None)
+                ndocs += 1
+                res.count()
+                if got != want:
+                    diff = [k for k in want if got.get(k) != want.get(k)]
+                    res.violation('pred:history-dependent:%s' % '-'.join(diff),
+                                  'document %d of a history (%s, default params) after an earlier run with a %s gives a different %s than in a fresh process' % (
+                                      i, mf, prelude, diff),
+                                  {'history': [{'prelude': prelude}] + [{'map': d[0], 'loop_id': d[2], 'document': d[1], 'settings': None} for j, d in enumerate(docs[:i + 1])],
+                                   'call': 'harness.c18.observe(document, params(), loop_id) after the prelude run (params(config file) / map_path=private directory); compare with a fresh interpreter',
+                                   'observed': {k: repr(got.get(k))[:600] for k in diff}, 'required': {k: repr(want.get(k))[:600] for k in diff}})
         if len(res.cov['samples']) < 3:
-            res.sample({'history': [(d[0], d[2], len(d[1])) for d in docs]})
+            res.sample({'history': [(d[0], d[2], len(d[1])) for d in docs], 'prelude': prelude})
     cells_after = default_cells(mods)
     for k, v in cells_after.items():
         res.count()
@@ -298,6 +375,16 @@ def run(tier):
             # decided by the histories above (different settings for the same map in one process)
             res.broke('correspondence:Globals.module-containers', 'module-level container %s changed during the histories: %s -> %s' % (
                 k, before.get(k, '<absent>')[:120], (after.get(k) or '')[:120]))
+    cafter = class_containers(mods)
+    for k in sorted(set(cbefore) | set(cafter)):
+        if cafter.get(k) != cbefore.get(k, '<absent>'):
+            res.broke('correspondence:Globals.class-containers', 'class-level container %s changed during the histories: %s -> %s' % (
+                k, cbefore.get(k, '<absent>')[:120], (cafter.get(k) or '')[:120]))
+    import shutil
+    shutil.rmtree(pdir, ignore_errors=True)
+    if os.path.exists(conf):
+        os.remove(conf)
+    res.notes['class_containers_watched'] = len(cbefore)
     res.notes['documents'] = ndocs
     res.notes['histories'] = nhist
     res.notes['default_cells'] = sorted(cells)
@@ -313,7 +400,17 @@ def replay(d):
     import pyx12.params
     params = pyx12.params.params()
     got = None
+    docs = [h for h in hist if 'document' in h]
     for h in hist:
+        if h.get('prelude') == 'config-file':
+            observe(docs[0]['document'], pyx12.params.params(config_file()), docs[0]['loop_id'])
+            params = None
+            continue
+        if h.get('prelude') == 'private-map-dir':
+            t0 = [x for x in docs if x['map'] == '837.4010.X098.A1.xml'][0]['document']
+            observe(t0, pyx12.params.params(), None, map_path=private_map_dir())
+            params = None
+            continue
         got = observe(h['document'], params, h['loop_id'], None, h.get('settings'))
     want = fresh(hist[-1]['document'], hist[-1]['loop_id'], hist[-1].get('settings'))
     print('same' if got == want else 'different')
